@@ -281,3 +281,10 @@ func (g *G) vecPairBig() (*sparse.Vector, *sparse.Vector) {
 	}
 	return long, short
 }
+
+func (g *G) pick2(a, b int) int {
+	if g.intn(2) == 0 {
+		return a
+	}
+	return b
+}
